@@ -19,7 +19,7 @@ import vlib
 from vlib import enc_str, dec_str, enc_list
 
 THEOREMS = ["C20_tables", "C20_dispatch_repl", "C20_dispatch_version", "C20_dispatch_help", "C20_dispatch_single",
-            "C20_dispatch_eval", "C20_dispatch_lint", "C20_dispatch_file", "C20_dispatch_total", "C20_exit",
+            "C20_dispatch_eval", "C20_dispatch_lint", "C20_dispatch_file", "C20_dispatch_total", "C20_exit", "C20_exit_source",
             "C20_error_line", "C20_exit_status", "C20_lint", "C20_lint_report", "C20_lint_field",
             "C20_lint_only_parses", "C20_nonvacuous"]
 CLI_TARGET = os.path.join(vlib.CACHE, "cargo-target-cli")
